@@ -2327,6 +2327,108 @@ impl Part for Nesting {
     }
 }
 
+// ---- parsing history: the tree of a valid request must not depend on what the same thread parsed before ----
+
+#[derive(Clone, Debug, Serialize, Deserialize)]
+struct HistCase {
+    q: Query,
+    lex: Vec<u8>,
+    lay: Vec<u8>,
+    /// hostile inputs parsed between the parses of the valid request: (kind, size selector)
+    hostile: Vec<(u8, u8)>,
+}
+
+fn hostile_input(kind: u8, size: u8, valid: &str) -> String {
+    let n = [1usize, 40, 127, 128, 129, 130, 200, 600][size as usize % 8];
+    match kind % 9 {
+        0 => nesting_input("group", n),
+        1 => nesting_input("quoted", n),
+        2 => nesting_input("filter_paren", n),
+        3 => nesting_input("group_open_only", n),
+        4 => nesting_input("quoted_open_only", n),
+        5 => nesting_input("filter_paren_open_only", n),
+        // a valid request cut in the middle / with a stray tail (rejected after progress)
+        6 => valid.chars().take(valid.chars().count() * (1 + size as usize % 7) / 8).collect(),
+        7 => format!("{valid} }}"),
+        _ => format!("SELECT * WHERE {{ ?s ?p \"{}", "x".repeat(n)),
+    }
+}
+
+struct History;
+impl Part for History {
+    type Case = HistCase;
+    fn name(&self) -> &'static str {
+        "history"
+    }
+    fn cases(&self, tier: Tier) -> u32 {
+        tier.pick(1_500, 30_000)
+    }
+    fn strategy(&self, _: Tier) -> BoxedStrategy<HistCase> {
+        (query_strategy(), bytes(160), bytes(240), proptest::collection::vec((0u8..9, 0u8..8), 1..=12)).prop_map(|(q, lex, lay, hostile)| HistCase { q, lex, lay, hostile }).boxed()
+    }
+    fn describe(&self, c: &HistCase) -> serde_json::Value {
+        let (req, _) = lexicalise(&c.q, &c.lex);
+        let text = print_request(&req, &c.lay).text;
+        json!({"valid_request": text, "hostile_inputs_between": c.hostile.iter().map(|(k, z)| clip(&hostile_input(*k, *z, &text), 60)).collect::<Vec<_>>()})
+    }
+    fn check(&self, c: &HistCase) -> Outcome {
+        // one fresh thread per case: whatever state a parser keeps per thread starts clean, so a saved case replays alone
+        let c2 = c.clone();
+        let h = std::thread::Builder::new().stack_size(64 << 20).spawn(move || {
+            install_panic_hook();
+            let mut o = Outcome::new();
+            let c = &c2;
+            let (req, _) = lexicalise(&c.q, &c.lex);
+            let exp = expected_body(&req);
+            let text = print_request(&req, &c.lay).text;
+            let first = match parse_mirror(&text, false) {
+                Ok((_, b)) => b,
+                Err(_) => {
+                    // the roundtrip part judges valid requests parsed in isolation
+                    o.skipped.push("valid-request-rejected-in-isolation");
+                    return o;
+                }
+            };
+            if diff_body(&exp, &first).is_some() {
+                o.skipped.push("valid-request-differs-in-isolation");
+                return o;
+            }
+            let mut deep = false;
+            for (i, (k, z)) in c.hostile.iter().enumerate() {
+                let bad = hostile_input(*k, *z, &text);
+                deep |= *k % 9 < 6 && [129usize, 130, 200, 600].contains(&[1usize, 40, 127, 128, 129, 130, 200, 600][*z as usize % 8]);
+                // every parser sees the hostile input (its own verdict belongs to the totality parts)
+                let r = check_total_report(&bad);
+                o.inner_evals += r.parsers_run as u64 + 1;
+                match parse_mirror(&text, false) {
+                    Ok((_, b)) if b == first => {}
+                    Ok((_, b)) => {
+                        o.fail("c16.faithful.tree_depends_on_earlier_inputs", format!("after {} other inputs on the same thread (last: {:?}) the same text parses to a different tree: {:?}\n--- text ---\n{}", i + 1, clip(&bad, 80), diff_body(&first, &b), text));
+                        return o;
+                    }
+                    Err((what, d)) => {
+                        let sig = if let Some(ps) = what.strip_prefix("panic:") { ps.to_string() } else { "c16.faithful.rejected_after_earlier_inputs".to_string() };
+                        o.fail(sig, format!("a valid request that parsed on this thread before is rejected after {} other inputs (last: {:?}): {what}: {d}\n--- text ---\n{}", i + 1, clip(&bad, 80), text));
+                        return o;
+                    }
+                }
+            }
+            o.class_if(deep, "over-deep-input-in-between");
+            o.class_if(c.hostile.len() >= 4, "hostile>=4");
+            o.nontrivial = deep && c.hostile.len() >= 4;
+            o
+        });
+        match h.map(|h| h.join()) {
+            Ok(Ok(o)) => o,
+            _ => {
+                let mut o = Outcome::new();
+                o.fail("c16.total.history_thread_died", "the thread parsing a history of inputs died (panic outside the parser guards or stack overflow)");
+                o
+            }
+        }
+    }
+}
+
 // ---- libFuzzer campaign (thorough tier) ----
 
 #[derive(Clone, Debug, Serialize, Deserialize)]
@@ -2541,7 +2643,7 @@ fn main() {
          RULE/PROB, REGISTER, RETRIEVE, MODEL / NEURAL RELATION / TRAIN declarations, ML.PREDICT, window specs) x every char-boundary offset x {insert é, €, 😀, U+0301, U+00A0, U+2028; delete the char; \
          duplicate the token starting there; truncate there}; part `mutations`: 1-4 token-level edits (delete/duplicate/swap/replace/insert dictionary token, multi-byte char inside a token, truncate, cut token, change case) \
          of generated valid requests printed with random layout; part `deep-nesting`: `{`xN, `<<`xN, `(`xN in FILTER (balanced and opener-only), N in 1e2..1e5, child process, 2 MiB stack; \
-         part `fuzz-corpus`: replay of the corpus and of libFuzzer artifacts; part `libfuzzer` (thorough): 4 cargo-fuzz jobs on target parse_total (same oracle), new artifacts replayed in-process. \
+         part `history`: a valid generated request is parsed, then 1-12 hostile inputs (nesting of six kinds at 1..600 levels incl. 128/129, truncated / over-long variants of the request, unterminated literal) go through every parser ON THE SAME (fresh) THREAD, and after each of them the request must parse to the same tree again; part `fuzz-corpus`: replay of the corpus and of libFuzzer artifacts; part `libfuzzer` (thorough): 4 cargo-fuzz jobs on target parse_total (same oracle), new artifacts replayed in-process. \
          FAITHFULNESS part `roundtrip`: syntax trees from the C01/C03 generators (SELECT with GRAPH/UNION/sub-SELECT/FILTER/BIND/VALUES/modifiers/dataset clauses; six update forms) are given exact lexemes by a `lex` choice vector \
          ($x/?x, four quote forms, language tags, datatypes, prefixed names with dots/escapes/%XX/colons/non-ASCII, IRIs with \\u escapes, numeric forms, booleans, blank nodes, RDF-star quoted triples, `a`) and printed twice with independent `lay` choice vectors \
          (spaces/tabs/CR/LF/none where the token grammar allows, # comments ended by LF, CR or CRLF between any two tokens, keyword case, optional WHERE, optional dots, dangling `;`, `;`/`,` abbreviations, interleaved FROM/FROM NAMED, shared or split GRAPH blocks, redundant filter parentheses); \
@@ -2561,6 +2663,7 @@ fn main() {
     s.run_enum(&Sweep, sweep_cases(corpus), true);
     s.run(&Roundtrip);
     s.run(&Mutations);
+    s.run(&History);
     let mut nest = vec![];
     for kind in ["group", "quoted", "filter_paren", "group_open_only", "quoted_open_only", "filter_paren_open_only"] {
         for n in [100usize, 1_000, 10_000, 100_000] {
